@@ -56,13 +56,14 @@ int main(int argc, char ** argv)
    const bool th = args.Thorough();
    // name, table kind, alphabet mask, start-state set, depth quick, depth thorough, share of the deadline, thorough only
    static const PartSpec parts[] = {
-      {"small-core",       0, M_CORE,           SS_SMALL,  4, 5, 0.34, false},
+      {"small-core",       0, M_CORE,           SS_SMALL,  4, 5, 0.29, false},
       {"small",            0, M_SMALL,          SS_SMALL,  3, 4, 0.14, false},
       {"small-full",       0, M_FULL,           SS_SMALLQ, 3, 4, 0.10, false},
       {"boundary255",      0, M_CORE | M_BOUND, SS_BOUND,  3, 3, 0.10, false},
       {"boundary255-wide", 0, M_BWIDE,          SS_BOUNDW, 2, 2, 0.03, false},
       {"boundary255-deep", 0, M_HUGE,           SS_BOUNDD, 3, 4, 0.04, false},
-      {"boundary65k",      0, M_HUGE,           SS_HUGE,   1, 3, 0.10, false},
+      {"boundary65k",      0, M_HUGE,           SS_HUGE,   1, 2, 0.05, false},
+      {"boundary65k-deep", 0, M_HUGE,           SS_HUGED,  2, 3, 0.10, true},
       {"ordered-keys",     1, M_ORD,            SS_ORD,    3, 4, 0.06, false},
       {"ordered-values",   2, M_ORD,            SS_ORD,    3, 4, 0.07, false},
       {"alias",            0, M_ALIAS,          SS_ALIAS,  2, 3, 0.02, false},
